@@ -293,7 +293,14 @@ func (c *Caller) begin(ctx context.Context) []call {
 			defer cancel()
 			select {
 			case <-ctx.Done():
-				responder <- emptyCall
+				// leave no responder behind: a call that found it after this
+				// request has been answered would be handed to nobody
+				if c.responders.RemoveCb(id, func(_ string, v interface{}, exists bool) bool {
+					return exists && v == interface{}(responder)
+				}) {
+					return emptyCall
+				}
+				// a call or a newer begin has taken the responder and is answering it
 			case result := <-responder:
 				return result
 			}
